@@ -32,9 +32,9 @@ GAP = {
 
 
 @st.composite
-def reference_map(draw, rid, sizes=("tiny", "small", "small", "medium", "medium", "large"), spacing=None):
+def reference_map(draw, rid, sizes=("tiny", "small", "medium", "medium", "large", "large"), spacing=None):
     size = draw(st.sampled_from(sizes))
-    n = draw({"one": st.just(1), "tiny": st.integers(1, 6), "small": st.integers(6, 25), "medium": st.integers(20, 60),
+    n = draw({"one": st.just(1), "tiny": st.integers(1, 6), "small": st.integers(8, 30), "medium": st.integers(25, 70),
               "large": st.integers(50, 120)}[size])
     kind = spacing or draw(st.sampled_from(["dense", "realistic", "realistic", "sparse", "mixed"]))
     gaps = draw(st.lists(GAP[kind], min_size=n - 1, max_size=n - 1))
@@ -53,7 +53,8 @@ def reference_map(draw, rid, sizes=("tiny", "small", "small", "medium", "medium"
 
 def _window(draw, ref, kmin, kmax):
     n = len(ref["labels"])
-    k = draw(st.integers(min(kmin, n), min(kmax, n)))
+    hi = min(kmax, n)
+    k = draw(st.one_of(st.integers(min(kmin, hi), hi), st.integers(min(max(kmin, 14), hi), hi)))
     i = draw(st.integers(0, n - k))
     lab = ref["labels"][i:i + k]
     return i, k, [p - lab[0] for p in lab]
@@ -75,7 +76,7 @@ def query_map(draw, qid, refs, kinds=ALL_KINDS):
             pos = [p + j for p, j in zip(pos, jit)]
             drop = set(draw(st.lists(st.integers(0, k - 1), max_size=max(0, k // 5))))
             kept = [p for n_, p in enumerate(pos) if n_ not in drop] or pos[:1]
-            extra = draw(st.lists(st.integers(0, int(max(pos)) + 1), max_size=3))
+            extra = draw(st.lists(st.integers(0, int(max(max(pos), 0)) + 1), max_size=3))
             pos = kept + extra
         if kind == "stretched":
             f = draw(st.integers(88, 112)) / 100
@@ -187,7 +188,7 @@ def cli_args(draw, options=None, weight_default=3):
 
 @st.composite
 def pipeline_case(draw, modes=MODES, kinds=ALL_KINDS, max_refs=3, max_queries=6, options=None, weight_default=3,
-                  ref_sizes=("tiny", "small", "small", "medium", "medium", "large"), min_queries=1):
+                  ref_sizes=("tiny", "small", "medium", "medium", "large", "large"), min_queries=1):
     nr = draw(st.integers(1, max_refs))
     rids = draw(st.lists(st.integers(1, 999), min_size=nr, max_size=nr, unique=True))
     refs = [draw(reference_map(rid, ref_sizes)) for rid in rids]
